@@ -14,11 +14,13 @@ pub struct Sink {
     pub fail_at: Option<u32>,
     pub writes: u32,
     pub failed: bool,
+    /// an element's own formatter returned Err during the rendering (set by the harness afterwards)
+    pub elem_failed: bool,
 }
 
 impl Sink {
     pub fn new(cap: u32, fail_at: Option<u32>) -> Self {
-        Sink { buf: [0; SINK_BYTES], len: 0, cap: (cap as usize).min(SINK_BYTES), fail_at, writes: 0, failed: false }
+        Sink { buf: [0; SINK_BYTES], len: 0, cap: (cap as usize).min(SINK_BYTES), fail_at, writes: 0, failed: false, elem_failed: false }
     }
     pub fn text(&self) -> &str {
         core::str::from_utf8(&self.buf[..self.len]).unwrap_or("<non-utf8>")
